@@ -969,7 +969,8 @@ var ruleLocFile = &Rule{
 						if bo.Op == token.NEQ {
 							eq = 1
 						}
-						if (id.Succs[eq] == d || id.Succs[eq].Dominates(b)) && id.Succs[1-eq] != id.Succs[eq] {
+						// the block must be reachable through the equality edge only (a join behind `if a != b { … }` is not evidence)
+						if len(id.Succs[eq].Preds) == 1 && (id.Succs[eq] == d || id.Succs[eq].Dominates(b)) && id.Succs[1-eq] != id.Succs[eq] {
 							guarded = true
 						}
 					}
@@ -1119,6 +1120,9 @@ var ruleCursor = &Rule{
 						if _, isC := call.Call.Args[1].(*ssa.Const); isC {
 							continue // a fixed number of bytes: punctuation / operators
 						}
+						if _, fixed := constIntResults(call.Call.Args[1]); fixed {
+							continue // the result of a helper that returns literals only (the length of a line break: 2, 1 or 0)
+						}
 						if p, isP := call.Call.Args[1].(*ssa.Parameter); isP && paramAlwaysConst(c, p) {
 							continue // a private helper that every caller gives a constant: still a fixed number of bytes
 						}
@@ -1257,6 +1261,36 @@ var ruleLineStart = &Rule{
 				if x.Op == token.EQL && (isNLConst(x.X) || isNLConst(x.Y)) {
 					return true
 				}
+				// n > 0 where n is the result of a lexer helper that returns a non-zero literal only behind newline evidence
+				// (lineBreakLen: 2 after isEnterWrap(), 1 after isNewLine(chunk[0]), else 0)
+				if k, isC := x.Y.(*ssa.Const); isC && k.Value != nil && k.Value.Kind() == constant.Int &&
+					((x.Op == token.GTR && k.Int64() == 0) || (x.Op == token.NEQ && k.Int64() == 0) || (x.Op == token.GEQ && k.Int64() == 1)) {
+					if _, fixed := constIntResults(x.X); fixed {
+						g := x.X.(*ssa.Call).Call.StaticCallee()
+						okAll := g.Pkg != nil && g.Pkg.Pkg.Path() == lexerPkgPath
+						for _, gb := range g.Blocks {
+							ret, isRet := gb.Instrs[len(gb.Instrs)-1].(*ssa.Return)
+							if !isRet || !okAll {
+								continue
+							}
+							if rk, isK := ret.Results[0].(*ssa.Const); isK && rk.Value != nil && rk.Int64() == 0 {
+								continue
+							}
+							ev := false
+							for _, de := range dominatingEdges(gb) {
+								if de.truth && evidenceCond(de.cond, d+1) {
+									ev = true
+								}
+							}
+							if !ev {
+								okAll = false
+							}
+						}
+						if okAll {
+							return true
+						}
+					}
+				}
 			case *ssa.Extract:
 				// a boolean result: every return of the callee gives false, or true under newline evidence (checked: no true constant outside evidence)
 				if call, ok := x.Tuple.(*ssa.Call); ok {
@@ -1281,6 +1315,7 @@ var ruleLineStart = &Rule{
 		n := 0
 		nArith := 0
 		_ = nArith
+		nUnits := 0
 		for _, f := range c.ModFns() {
 			if f.Pkg == nil || f.Pkg.Pkg.Path() != lexerPkgPath {
 				continue
@@ -1301,6 +1336,17 @@ var ruleLineStart = &Rule{
 						// arithmetic on the cursor: the cursor counts characters, so what is added to / subtracted from it
 						// must count characters too — never a byte offset into the input
 						if bo, isB := st.Val.(*ssa.BinOp); isB && (bo.Op == token.ADD || bo.Op == token.SUB) {
+							// the same for a length: len(s) of a piece of text counts bytes, strings.Index a byte offset
+							for _, t := range byteLengthTerms(st.Val) {
+								key := fmt.Sprintf("LOC/line-start:%s:byte-length:%s", f.Name(), t.desc)
+								nUnits++
+								if why, ok := reviewedByteLengths[f.Name()+"|"+t.desc]; ok {
+									obs = append(obs, Ob{Key: key, Site: c.Pos(st.Pos()), Verdict: OK, Note: "reviewed: " + why})
+								} else {
+									obs = append(obs, Ob{Key: key, Site: c.Pos(st.Pos()), Verdict: VIOLATION,
+										Note: f.Name() + " computes the start of the line from the cursor (characters) and " + t.what + " of " + t.desc + " (bytes): a multi-byte character in that text shifts the columns of every later token on the line"})
+								}
+							}
 							for _, x := range []ssa.Value{bo.X, bo.Y} {
 								if off, isOff := byteOffsetIntoChunk(f, x); isOff {
 									nArith++
@@ -1356,6 +1402,7 @@ var ruleLineStart = &Rule{
 			}
 		}
 		obs = append(obs, floor("LOC/line-start", "assignments lineStartPos = currentPos", n, 2))
+		c.Stats["line_start_byte_length_terms"] = nUnits
 		return obs
 	},
 }
@@ -1547,4 +1594,84 @@ func byteOffsetIntoChunk(f *ssa.Function, v ssa.Value) (string, bool) {
 		}
 	}
 	return "", false
+}
+
+
+// reviewed: byte lengths that take part in a line-start computation (function|term) and why bytes equal characters there
+var reviewedByteLengths = map[string]string{
+	"scanLongString|result of strings.Replace": "the closing long bracket `]=*]`, built by replacing `[` with `]` in the opener that matchLongStringBacket recognised byte by byte (`[`, `=`): ASCII only",
+}
+
+type byteTerm struct{ what, desc string }
+
+// byteLengthTerms: the terms of an integer sum / difference that are byte quantities of text: len(s) of a string or
+// byte slice that is not a constant, and the results of the strings.Index family
+func byteLengthTerms(v ssa.Value) []byteTerm {
+	var out []byteTerm
+	var desc func(x ssa.Value, d int) string
+	desc = func(x ssa.Value, d int) string {
+		if d > 4 {
+			return "…"
+		}
+		switch y := x.(type) {
+		case *ssa.Call:
+			if g := y.Call.StaticCallee(); g != nil {
+				return "result of " + g.RelString(nil)
+			}
+			return "result of a call"
+		case *ssa.Slice:
+			return "part of " + desc(y.X, d+1)
+		case *ssa.UnOp:
+			if y.Op == token.MUL {
+				if ia, ok := y.X.(*ssa.IndexAddr); ok {
+					return "element of " + desc(ia.X, d+1)
+				}
+			}
+		case *ssa.Index:
+			return "element of " + desc(y.X, d+1)
+		case *ssa.Phi:
+			for _, e := range y.Edges {
+				if e != x {
+					return desc(e, d+1)
+				}
+			}
+		}
+		return describeValue(x)
+	}
+	var walk func(x ssa.Value, d int)
+	walk = func(x ssa.Value, d int) {
+		if d > 6 {
+			return
+		}
+		switch y := x.(type) {
+		case *ssa.BinOp:
+			if y.Op == token.ADD || y.Op == token.SUB {
+				walk(y.X, d+1)
+				walk(y.Y, d+1)
+			}
+		case *ssa.Call:
+			if bi, ok := y.Call.Value.(*ssa.Builtin); ok && bi.Name() == "len" && len(y.Call.Args) == 1 {
+				a := y.Call.Args[0]
+				if _, isC := a.(*ssa.Const); isC {
+					return
+				}
+				switch t := a.Type().Underlying().(type) {
+				case *types.Basic:
+					if t.Info()&types.IsString != 0 {
+						out = append(out, byteTerm{"the length", desc(a, 0)})
+					}
+				case *types.Slice:
+					if bt, ok := t.Elem().Underlying().(*types.Basic); ok && bt.Kind() == types.Byte {
+						out = append(out, byteTerm{"the length", desc(a, 0)})
+					}
+				}
+				return
+			}
+			if g := y.Call.StaticCallee(); g != nil && g.Pkg != nil && (g.Pkg.Pkg.Path() == "strings" || g.Pkg.Pkg.Path() == "bytes") && strings.Contains(g.Name(), "Index") {
+				out = append(out, byteTerm{"the byte offset", "result of " + g.Pkg.Pkg.Name() + "." + g.Name()})
+			}
+		}
+	}
+	walk(v, 0)
+	return out
 }
